@@ -103,36 +103,43 @@ theorem closeStream_shape (st : St) :
     ∀ (j : Nat), (closeStream st).1.objs[j]? = (st.objs[j]?).map (fun o => if st.cur = some j then closeObj o else o) := by
   unfold closeStream
   cases hc : st.cur with
-  | none => simp
+  | none =>
+    refine ⟨by cases st; simp_all, rfl, fun j => ?_⟩
+    cases st.objs[j]? <;> simp
   | some i =>
     simp only []
     cases ho : st.objs[i]? with
     | none =>
       simp only []
-      refine ⟨rfl, rfl, fun j => ?_⟩
-      by_cases hij : i = j
-      · subst hij; simp [ho]
-      · cases st.objs[j]? <;> simp [hij]
+      refine ⟨?_, ?_, fun j => ?_⟩
+      · first | rfl | trivial
+      · first | rfl | trivial
+      · by_cases hij : i = j
+        · subst hij; simp [ho]
+        · cases st.objs[j]? <;> simp [hij]
     | some o =>
       have hlt : i < st.objs.length := by
         rcases List.getElem?_eq_some_iff.mp ho with ⟨h, _⟩; exact h
+      have hget : st.objs[i] = o := (List.getElem?_eq_some_iff.mp ho).2
       cases o with
       | http s =>
         simp only []
-        refine ⟨rfl, by simp [St.setObj], fun j => ?_⟩
-        simp only [St.setObj, List.getElem?_set]
-        by_cases hij : i = j
-        · subst hij; simp [ho, hlt, closeObj]
-        · simp only [hij, if_false]
-          cases st.objs[j]? <;> simp [hij]
+        refine ⟨?_, by simp [St.setObj], fun j => ?_⟩
+        · first | rfl | trivial
+        · simp only [St.setObj, List.getElem?_set]
+          by_cases hij : i = j
+          · subst hij; simp [hlt, closeObj, hget]
+          · simp only [hij, if_false]
+            cases st.objs[j]? <;> simp [hij]
       | ws s =>
         simp only []
-        refine ⟨rfl, by simp [St.setObj], fun j => ?_⟩
-        simp only [St.setObj, List.getElem?_set]
-        by_cases hij : i = j
-        · subst hij; simp [ho, hlt, closeObj]
-        · simp only [hij, if_false]
-          cases st.objs[j]? <;> simp [hij]
+        refine ⟨?_, by simp [St.setObj], fun j => ?_⟩
+        · first | rfl | trivial
+        · simp only [St.setObj, List.getElem?_set]
+          by_cases hij : i = j
+          · subst hij; simp [hlt, closeObj, hget]
+          · simp only [hij, if_false]
+            cases st.objs[j]? <;> simp [hij]
 
 theorem inert_closeObj (o : Stream) (h : Inert o) : Inert (closeObj o) := by
   cases o with
@@ -256,7 +263,6 @@ theorem inv_maybeRecycle {st : St} {g : Ws.Frag} (hI : Inv st g) : Inv (maybeRec
     · -- the cycle restarts: every object is inert
       rename_i hcond lib' hs
       obtain ⟨hc, hsv, hc', hsv', hw'⟩ := startNextCycle_eq _ _ hs
-      simp only [Bool.and_eq_true, Bool.not_eq_true', beq_iff_eq] at hcond
       have hinert : ∀ (i : Nat) (o : Stream), (closeStream st).1.objs[i]? = some o → Inert o := by
         intro i o ho
         cases o with
@@ -294,7 +300,134 @@ theorem inv_maybeRecycle {st : St} {g : Ws.Frag} (hI : Inv st g) : Inv (maybeRec
       wait := fun h1 h2 h3 => by
         have := hI1.wait h1 h2 h3
         refine ⟨this.1, ?_⟩
-        simp only [this.2]
-        rfl }
+        simp [this.2] }
+
+/-! ### replacing the latest object (an application send) -/
+
+theorem inv_setHttp {st : St} {g : Ws.Frag} (hI : Inv st g) (i : Nat) (s s' : Http.S) (lib' : H11M.St)
+    (hi : st.objs[i]? = some (Stream.http s)) (hlast : i + 1 = st.objs.length)
+    (ha : (s'.st = .response ∨ s'.st = .trailers) → s'.response.isSome = true)
+    (hb : s'.closed = s.closed)
+    (hc : HttpInert s' ∨ lib'.client ≠ .idle)
+    (hd : lib'.client = .idle → st.lib.client = .idle)
+    (he : s'.st ≠ .closed → lib'.client = .error ∨ H11M.NotBad lib'.server)
+    (hh : lib'.waiting100 = true → st.wsMode = false → st.switched = false → lib'.server = .sendResponse ∧ st.pc = .inLoop) :
+    Inv { st with objs := st.objs.set i (Stream.http s'), lib := lib' } g := by
+  have hlt : i < st.objs.length := by omega
+  have hget : ∀ (j : Nat) (o : Stream), (st.objs.set i (Stream.http s'))[j]? = some o →
+      (j = i ∧ o = Stream.http s') ∨ (j ≠ i ∧ st.objs[j]? = some o) := by
+    intro j o h
+    rw [List.getElem?_set] at h
+    by_cases hij : i = j
+    · subst hij; simp [hlt] at h; exact Or.inl ⟨rfl, h.symm⟩
+    · simp [hij] at h; exact Or.inr ⟨fun e => hij e.symm, h⟩
+  -- every other object is not the latest one, hence inert
+  have hother : ∀ (j : Nat) (o : Stream), j ≠ i → st.objs[j]? = some o → Inert o := by
+    intro j o hne h
+    rcases hI.objs j o h with hin | ⟨hl, _⟩
+    · exact hin
+    · exact absurd (by omega) hne
+  refine ⟨?_, ?_, ?_, ?_, ?_, ?_, ?_, ?_, ?_, ?_⟩
+  · intro j sw h
+    rcases hget j _ h with ⟨_, he'⟩ | ⟨_, h'⟩
+    · cases he'
+    · exact hI.wsObj j sw h'
+  · intro j sh h hs
+    rcases hget j _ h with ⟨_, he'⟩ | ⟨_, h'⟩
+    · cases he'; exact ha hs
+    · exact hI.httpObj j sh h' hs
+  · intro j sw hcur h
+    rcases hget j _ h with ⟨_, he'⟩ | ⟨_, h'⟩
+    · cases he'
+    · exact hI.buf j sw hcur h'
+  · exact hI.frag0
+  · intro j hcur; simp only [List.length_set]; exact hI.curLast j hcur
+  · intro j o h hf
+    rcases hget j _ h with ⟨rfl, he'⟩ | ⟨_, h'⟩
+    · subst he'
+      exact hI.openCur j _ hi (by simpa [closedFlag, hb] using hf)
+    · exact hI.openCur j o h' hf
+  · intro j o h
+    simp only [List.length_set]
+    rcases hget j _ h with ⟨rfl, he'⟩ | ⟨hne, h'⟩
+    · subst he'
+      rcases hc with hc | hc
+      · exact Or.inl hc
+      · exact Or.inr ⟨hlast, hc⟩
+    · exact Or.inl (hother j o hne h')
+  · intro j sh h hs
+    rcases hget j _ h with ⟨_, he'⟩ | ⟨hne, h'⟩
+    · cases he'; exact he hs
+    · exact absurd (hother j _ hne h').1 hs
+  · intro j sw hcur h hs hcl
+    exfalso
+    have : j = i := by have := hI.curLast j hcur; omega
+    subst this
+    rcases hget j _ h with ⟨_, he'⟩ | ⟨hne, _⟩
+    · cases he'
+    · exact hne rfl
+  · exact hh
+
+theorem inv_setWs {st : St} {g : Ws.Frag} (hI : Inv st g) (i : Nat) (s s' : Ws.S) (lib' : H11M.St)
+    (hi : st.objs[i]? = some (Stream.ws s)) (hlast : i + 1 = st.objs.length)
+    (ha : Ws.Ok s') (hbuf : s'.buffer = s.buffer)
+    (hb : s'.closed = s.closed)
+    (hc : s'.closed = true ∨ lib'.client ≠ .idle)
+    (hd : lib'.client = .idle → st.lib.client = .idle)
+    (he : st.cur = some i → s'.st = .handshake → s'.closed = false → lib'.server = .sendResponse ∧ lib'.pendUpgrade = true) :
+    Inv { st with objs := st.objs.set i (Stream.ws s'), lib := lib' } g := by
+  have hlt : i < st.objs.length := by omega
+  have hwm : st.wsMode = true := (hI.wsObj i s hi).1
+  have hget : ∀ (j : Nat) (o : Stream), (st.objs.set i (Stream.ws s'))[j]? = some o →
+      (j = i ∧ o = Stream.ws s') ∨ (j ≠ i ∧ st.objs[j]? = some o) := by
+    intro j o h
+    rw [List.getElem?_set] at h
+    by_cases hij : i = j
+    · subst hij; simp [hlt] at h; exact Or.inl ⟨rfl, h.symm⟩
+    · simp [hij] at h; exact Or.inr ⟨fun e => hij e.symm, h⟩
+  have hother : ∀ (j : Nat) (o : Stream), j ≠ i → st.objs[j]? = some o → Inert o := by
+    intro j o hne h
+    rcases hI.objs j o h with hin | ⟨hl, _⟩
+    · exact hin
+    · exact absurd (by omega) hne
+  refine ⟨?_, ?_, ?_, ?_, ?_, ?_, ?_, ?_, ?_, ?_⟩
+  · intro j sw h
+    rcases hget j _ h with ⟨_, he'⟩ | ⟨_, h'⟩
+    · cases he'; exact ⟨hwm, ha⟩
+    · exact hI.wsObj j sw h'
+  · intro j sh h hs
+    rcases hget j _ h with ⟨_, he'⟩ | ⟨_, h'⟩
+    · cases he'
+    · exact hI.httpObj j sh h' hs
+  · intro j sw hcur h
+    rcases hget j _ h with ⟨rfl, he'⟩ | ⟨_, h'⟩
+    · cases he'; rw [hbuf]; exact hI.buf j s hcur hi
+    · exact hI.buf j sw hcur h'
+  · exact hI.frag0
+  · intro j hcur; simp only [List.length_set]; exact hI.curLast j hcur
+  · intro j o h hf
+    rcases hget j _ h with ⟨rfl, he'⟩ | ⟨_, h'⟩
+    · subst he'
+      exact hI.openCur j _ hi (by simpa [closedFlag, hb] using hf)
+    · exact hI.openCur j o h' hf
+  · intro j o h
+    simp only [List.length_set]
+    rcases hget j _ h with ⟨rfl, he'⟩ | ⟨hne, h'⟩
+    · subst he'
+      rcases hc with hc | hc
+      · exact Or.inl hc
+      · exact Or.inr ⟨hlast, hc⟩
+    · exact Or.inl (hother j o hne h')
+  · intro j sh h hs
+    rcases hget j _ h with ⟨_, he'⟩ | ⟨hne, h'⟩
+    · cases he'
+    · exact absurd (hother j _ hne h').1 hs
+  · intro j sw hcur h hs hcl
+    have : j = i := by have := hI.curLast j hcur; omega
+    subst this
+    rcases hget j _ h with ⟨_, he'⟩ | ⟨hne, _⟩
+    · cases he'; exact he hcur hs hcl
+    · exact absurd rfl hne
+  · intro _ h2; rw [hwm] at h2; cases h2
 
 end HC.Proto.H11
